@@ -1,6 +1,6 @@
 (* C05 - Unmarshal succeeds only on well-formed input it has fully consumed. *)
 From Coq Require Import List ZArith Bool.
-From Pico Require Import Base.Res Base.Mach Wire.Wire Schema.Types Schema.Scalar Ref.Ref Dec.Dec Dec.ReaderProofs Dec.SafetyProofs.
+From Pico Require Import Base.Res Base.Mach Wire.Wire Schema.Types Schema.Scalar Schema.Gen Schema.Interp Ref.Ref Dec.Dec Dec.ReaderProofs Dec.SafetyProofs Dec.LoopInst Dec.TokenBridge Schema.TDec.
 Import ListNotations.
 Open Scope Z_scope.
 
@@ -23,9 +23,27 @@ Proof. exact next_field_err_sticky. Qed.
 Theorem C05_sticky_pop : forall outer inner, err inner <> None -> err (pop_state outer inner) <> None.
 Proof. exact pop_state_err_sticky. Qed.
 
-(* PARTIAL. The equivalence err = None <-> wf_input s i b for whole messages is decided per run:
-   implementation verdict = model verdict = wf_input (Coq) = the independent predicate built on
-   protobuf-go's protowire, on every prefix / corruption / short token string generated. *)
+(* skipping a field fails exactly where the wire grammar has no value (truncated, bad wire type,
+   unbalanced or too deep group), and never reports more bytes than the input holds *)
+Theorem C05_skip_is_one_value : forall num wt rest, bytes_ok rest ->
+  match parse_value num wt rest with
+  | Some (p, k) => consume_field_value num wt rest = Z.of_nat k /\ (k <= length rest)%nat
+  | None => consume_field_value num wt rest < 0
+  end.
+Proof. exact cfv_parse_value. Qed.
+
+(* Whole messages: Unmarshal returns nil error EXACTLY on the inputs the reference decoder accepts, i.e. the
+   recursive well-formedness predicate: every tag valid, every wire type the field's (or packed), every length
+   inside its enclosing buffer, every nested message / map entry / Timestamp well formed, input fully consumed. *)
+Theorem C05_accepts_exactly_wellformed : forall s progs idx data t0,
+  gen_all s = GOk progs -> tdec_applies s = true -> bytes_ok data ->
+  (fst (pico_unmarshal progs idx data t0) = None <-> ref_decode (S (S (S (length data)))) s idx data t0 <> None).
+Proof.
+  intros s progs idx data t0 Hg Ha Hb. pose proof (T_dec_b s progs idx data t0 Hg Ha Hb) as H. cbv zeta in H.
+  destruct (ref_decode (S (S (S (length data)))) s idx data t0) as [t''|].
+  - split; [discriminate|intros _; exact (proj1 H)].
+  - split; [intros E; contradiction|intros E; exfalso; apply E; reflexivity].
+Qed.
 
 Example C05_nonvacuous : valid_number 536870912 = false /\ spec_tag 536870912 0 = [128; 128; 128; 128; 16].
 Proof. split; vm_compute; reflexivity. Qed.
@@ -34,3 +52,5 @@ Print Assumptions C05_invalid_number.
 Print Assumptions C05_truncated_tag.
 Print Assumptions C05_wrong_wire.
 Print Assumptions C05_sticky_next.
+Print Assumptions C05_skip_is_one_value.
+Print Assumptions C05_accepts_exactly_wellformed.
